@@ -55,9 +55,13 @@ let check_inv ~tcap (ps : psnap) : string option =
     Some ("minv_b false on the lifted MTBDD snapshot (hypothesis of the C05_term theorems): " ^ why))
 
 (* GC between [pp] and [ps] *)
-let check_gc ~tcap (pp : psnap) (ps : psnap) : (string * string) option =
+let check_gc ~tcap ~gcall ~res (pp : psnap) (ps : psnap) : (string * string) option =
   let n = nat (Array.length pp.l2v) in
-  let s = lift tcap pp in
+  let s0 = lift tcap pp in
+  (* [gcall]: the harness has already collected once before this GC op *)
+  let s = if gcall then Model.tcollect kind n s0 else s0 in
+  let exp_count = int_of_nat (Model.tcollect_count kind n s) in
+  let got_count = match split_ws res with [ "collected"; c ] -> int_of_string_opt c | _ -> None in
   let exp_t = sort_ints (List.map int_of_n (Model.collect_term_survivors kind n s)) in
   let exp_n = sort_ints (List.map (fun p -> Z.to_int (z_of_pos p)) (Model.collect_node_survivors kind n s)) in
   let got_t = ids_of_terms ps and got_n = ids_of_nodes ps in
@@ -69,6 +73,10 @@ let check_gc ~tcap (pp : psnap) (ps : psnap) : (string * string) option =
   else if exp_n <> got_n then
     Some ("prop", Printf.sprintf "inner nodes after gc(): %d stored, the model's collect keeps %d (ids differ)"
             (List.length got_n) (List.length exp_n))
+  else if got_count <> None && got_count <> Some exp_count then
+    Some ("prop", Printf.sprintf "gc() returned %d, but %d inner nodes and terminals were removed (model: %d)"
+            (match got_count with Some c -> c | None -> -1)
+            (pp.nnodes - List.length got_n + List.length pp.snap.Model.s_terms - List.length got_t) exp_count)
   else (
     (* survivors keep their value *)
     let bad = List.find_opt (fun (t, v) -> List.assoc_opt t pp.snap.Model.s_terms <> Some v) ps.snap.Model.s_terms in
